@@ -89,7 +89,7 @@ func (w *World) verifyFn(key string, opt Options) (res *FnResult) {
 		con = &eff
 		aliasFrom = tfn
 	}
-	x := &Exec{w: w, cx: newCx(w, con.Mode == "bv"), fn: fn, key: key, con: con, vars: collectVars(fn), maxPaths: 3000, entryPar: map[string]Val{}}
+	x := &Exec{w: w, cx: newCx(w, con.Mode == "bv"), fn: fn, key: key, con: con, vars: collectVarsCon(fn, con), maxPaths: 3000, entryPar: map[string]Val{}}
 	defer func() {
 		res.WallMS = time.Since(t0).Milliseconds()
 		if r := recover(); r != nil {
@@ -118,6 +118,10 @@ func (w *World) verifyFn(key string, opt Options) (res *FnResult) {
 		v := Val{S: n, T: p.Type()}
 		fr.regs[p] = v
 		x.entryPar[p.Name()] = v
+		if cn := paramNames(fn, con)[i]; cn != p.Name() {
+			x.entryPar[cn] = v
+			x.paramAlias = append(x.paramAlias, [2]string{cn, p.Name()})
+		}
 		if pt, ok := p.Type().Underlying().(*types.Pointer); ok {
 			x.notePtr(st, structName(pt.Elem()), n)
 			if i == 0 && fn.Signature.Recv() != nil {
@@ -213,6 +217,26 @@ func (w *World) verifyFn(key string, opt Options) (res *FnResult) {
 		return
 	}
 	x.solve(res, opt)
+	// clauses that were set aside because they no longer fit the code: their obligations cannot be discharged
+	for _, d := range con.Dropped {
+		name := ""
+		lab := d.Label
+		switch d.Kind {
+		case "ensures":
+			name = "ensures[" + lab + "]"
+		case "invariant":
+			name = fmt.Sprintf("inv-step#%d[%s]", d.Loop, lab)
+		case "before", "each":
+			name = fmt.Sprintf("%s#%d[%s]", d.Kind, d.Loop, lab)
+		case "decreases":
+			name = fmt.Sprintf("variant#%d", d.Loop)
+		case "atcall":
+			name = "atcall[" + lab + "]"
+		default:
+			name = d.Kind + "[" + lab + "]"
+		}
+		res.Obs = append(res.Obs, &ObResult{Fn: key, Name: name, Status: "dropped", Props: d.Props, Detail: "the clause no longer type-checks against the current tree: " + d.Why})
+	}
 	return
 }
 
